@@ -10,7 +10,7 @@ N = secp.N
 H = hd.H
 RULE = ("full product ALL 12 versions x depth{0,1,2,127,254,255} x child number{0,1,2^31-1,2^31,2^32-1,seeded} x fingerprint{00000000,"
         "00000001,ffffffff,seeded} x (chain code, key) pairs from the boundary alphabets (scalars 1, n-1, leading-zero; points of both "
-        "parities and leading-zero x), constrained by BIP32 validity (depth 0 => zero fingerprint and child number); every payload in "
+        "parities and leading-zero x), constrained by BIP32 validity (only a depth-0 node with child number 0 must carry a zero fingerprint); every payload in "
         "ALL three input forms (str, bytes, BytesIO); unknown versions: 0, 0xffffffff, every listed version +-1, other coins' "
         "constants. Oracle: string built by the reference serialiser from the fields; parse returns the fields; re-serialisation "
         "reproduces the string; equality with a constructed node; Version table typed in from SLIP-132; public serialisations "
@@ -86,6 +86,16 @@ def chk_payload(v, depth, fp_hex, index, chain_hex, k_hex, sec_hex):
             viols.append(V(P + ":__eq__:forms:unequal", "nodes parsed from different input forms are unequal (%s)" % s))
     if first is None:
         return viols
+    # stream semantics: parsing from a stream starts at its CURRENT position and consumes exactly 78 bytes
+    buf = BytesIO(b"\xaa\xbb\xcc" + raw + raw + b"\xdd")
+    buf.read(3)
+    st, n1 = attempt(cls.parse, buf, testnet)
+    pos1 = buf.tell()
+    st2, n2 = attempt(cls.parse, buf, testnet)
+    if st != "ok" or st2 != "ok" or not (n1 == first) or not (n2 == first) or pos1 != 3 + 78 or buf.tell() != 3 + 156:
+        viols.append(V("%s:parse(BytesIO):%s:stream-position" % (P, kind),
+                       "two serialised nodes read one after the other from one stream at offset 3: positions %r/%r, results %s/%s" % (
+                           pos1, buf.tell(), n1 if st != "ok" else "ok", n2 if st2 != "ok" else "ok")))
     # constructed node equality
     ctor_key = keydata[1:] if kind == "prv" else keydata
     st, built = attempt(lambda: cls(key=ctor_key, chain_code=chain, index=index, depth=depth, testnet=testnet, parent_fingerprint=fp))
@@ -174,8 +184,8 @@ def execute(case):
         for depth in DEPTHS:
             for fp in case["fps"]:
                 for index in case["indexes"]:
-                    if depth == 0 and (fp != "00000000" or index != 0):
-                        continue
+                    if depth == 0 and index == 0 and fp != "00000000":
+                        continue      # the only excluded shape: a master (depth 0, child number 0) must carry a zero fingerprint
                     single = {"k": "payload", "v": case["v"], "depth": depth, "fp": fp, "index": index, "chain": case["chain"],
                               "scalar": case.get("scalar"), "sec": case.get("sec")}
                     vs = chk_payload(case["v"], depth, fp, index, case["chain"], case.get("scalar"), case.get("sec"))
